@@ -129,22 +129,26 @@ def rust_gate(ctx: Ctx, rs: RustProgram) -> None:
         else:
             sel_ok += 1
     # the selection chain itself
-    chain_pairs = rust_selection_chain(ctx, rs, fn, defs, ceval)
+    # the selected source: the local that the `let Some((mask, name)) = <it> else { return }` gate destructures
+    sel_names = [expr_text(st["init"]) for st in walk(fn.body) if st.get("k") == "let" and st.get("else") is not None and isinstance(st.get("init"), dict) and st["init"].get("k") == "path"]
+    ctx.need(len(sel_names) == 1, f"deliver_pending_irq: the let-else that destructures the selected source was not found ({sel_names})")
+    sel_name = sel_names[0]
+    chain_pairs = rust_selection_chain(ctx, rs, fn, defs, ceval, sel_name)
     ctx.instance("C12.1/rust-source-chain", "per-source selection: Some((X,name)) only under (isr & X != 0) && (imr & X' != 0), X == X'", len(chain_pairs), 4)
     # mask recorded for RETI is the selected mask
     pushed = [n for n in walk(fn.body) if rs_is_mcall(n, "push", "self.timer.delivered_masks")]
     ctx.need(len(pushed) == 1, "deliver_pending_irq: delivered_masks.push site not found")
     arg = pushed[0]["args"][0]
     roots = [def_root(d) for d in defs.get(arg["p"], [])] if arg.get("k") == "path" else []
-    if not (roots and all(isinstance(r, dict) and expr_text(r) == "src" for r in roots)):
+    if not (roots and all(isinstance(r, dict) and expr_text(r) == sel_name for r in roots)):
         ctx.violation("C12.1/mask-recorded", key_of(rel, fn.qual, "delivered_masks.push"), "mask recorded for RETI is not the selected source mask", f"{rel}:{pushed[0]['ln']}")
     ctx.instance("C12.1/mask-recorded", "delivered_masks.push(mask) uses the mask bound by the selection", 1, 1)
 
 
-def rust_selection_chain(ctx: Ctx, rs: RustProgram, fn, defs, ceval) -> list:
+def rust_selection_chain(ctx: Ctx, rs: RustProgram, fn, defs, ceval, sel_name: str = "src") -> list:
     """let src = if (isr & X != 0) && (imr & Y != 0) { Some((X, name)) } else if ... else { None }"""
     rel = fn.file
-    src_defs = [d for d in defs.get("src", []) if isinstance(d, dict) and d.get("k") == "if"]
+    src_defs = [d for d in defs.get(sel_name, []) if isinstance(d, dict) and d.get("k") == "if"]
     ctx.need(len(src_defs) == 1, "deliver_pending_irq: `let src = if ...` selection chain not found")
     pairs = []
     e = src_defs[0]
